@@ -28,6 +28,8 @@ pub struct ChunkEncoder {
     pub seed: u64,
     /// records (tid, n) whose encoding fails part-way (fault at the Encode seam)
     pub fail: Vec<(u16, u16)>,
+    /// no decision points and no notes (the instance drives a reference model)
+    pub quiet: bool,
 }
 
 fn header_id(b: &[u8]) -> Option<(u16, u16)> {
@@ -54,7 +56,9 @@ impl Encode for ChunkEncoder {
         let mut p = 0;
         for (i, c) in cuts.iter().enumerate() {
             if i == fail_at {
-                kernel::note("encode.fail", "");
+                if !self.quiet {
+                    kernel::note("encode.fail", "");
+                }
                 anyhow::bail!("injected encoder failure");
             }
             if i % 3 == 2 {
@@ -67,7 +71,7 @@ impl Encode for ChunkEncoder {
                 w.write_all(&b[p..*c])?;
             }
             p = *c;
-            if i + 1 < cuts.len() {
+            if i + 1 < cuts.len() && !self.quiet {
                 kernel::point("enc.chunk");
             }
         }
@@ -83,7 +87,7 @@ fn fold(b: &[u8]) -> u64 {
 
 pub fn make_encoder(k: &EncKind) -> Box<dyn Encode> {
     match k {
-        EncKind::Chunk { seed } => Box::new(ChunkEncoder { seed: *seed, fail: vec![] }),
+        EncKind::Chunk { seed } => Box::new(ChunkEncoder { seed: *seed, fail: vec![], quiet: false }),
         EncKind::Pattern => Box::new(log4rs::encode::pattern::PatternEncoder::new("{m}")),
         EncKind::Json => Box::new(log4rs::encode::json::JsonEncoder::new()),
     }
@@ -243,3 +247,74 @@ pub fn decode_json(data: &[u8], fragments: bool) -> Result<Vec<u8>, (usize, Stri
     }
     Ok(out)
 }
+
+/// Reference model of `BufWriter<File>` (capacity 1 KiB, as the file appender
+/// builds it) over a file with an optional size limit (RLIMIT_FSIZE: a write
+/// that crosses the limit is cut short, one that starts at it fails).
+#[derive(Debug, Default)]
+pub struct BufFileModel {
+    pub buf: Vec<u8>,
+    pub file: Vec<u8>,
+    pub limit: Option<usize>,
+}
+
+const CAP: usize = 1024;
+
+impl BufFileModel {
+    fn file_write(&mut self, data: &[u8]) -> std::io::Result<usize> {
+        let n = match self.limit {
+            Some(l) if self.file.len() >= l => return Err(std::io::Error::from_raw_os_error(libc::EFBIG)),
+            Some(l) => data.len().min(l - self.file.len()),
+            None => data.len(),
+        };
+        self.file.extend_from_slice(&data[..n]);
+        Ok(n)
+    }
+    pub fn flush_buf(&mut self) -> std::io::Result<()> {
+        while !self.buf.is_empty() {
+            let b = std::mem::take(&mut self.buf);
+            match self.file_write(&b) {
+                Ok(n) => self.buf = b[n..].to_vec(),
+                Err(e) => {
+                    self.buf = b;
+                    return Err(e);
+                }
+            }
+        }
+        Ok(())
+    }
+}
+
+impl std::io::Write for BufFileModel {
+    fn write(&mut self, b: &[u8]) -> std::io::Result<usize> {
+        if b.len() > CAP - self.buf.len() {
+            self.flush_buf()?;
+        }
+        if b.len() >= CAP {
+            self.file_write(b)
+        } else {
+            self.buf.extend_from_slice(b);
+            Ok(b.len())
+        }
+    }
+    fn write_all(&mut self, b: &[u8]) -> std::io::Result<()> {
+        if b.len() > CAP - self.buf.len() {
+            self.flush_buf()?;
+        }
+        if b.len() >= CAP {
+            let mut p = 0;
+            while p < b.len() {
+                p += self.file_write(&b[p..])?;
+            }
+            Ok(())
+        } else {
+            self.buf.extend_from_slice(b);
+            Ok(())
+        }
+    }
+    fn flush(&mut self) -> std::io::Result<()> {
+        self.flush_buf()
+    }
+}
+
+impl encode::Write for BufFileModel {}
